@@ -66,8 +66,9 @@ func (e *Exec) load(st *State, addr *smt.Term, t types.Type) *smt.Term {
 		}
 	}
 	e.assumeWF(st, v, t)
-	// every address stored in the initial heap was allocated before entry
-	e.assumeNotFresh(st, v0, t, e.alloc0)
+	// every address stored in the initial heap at a location that existed at entry was allocated
+	// before entry (locations of objects allocated later hold whatever their allocator put there)
+	e.assumeNotFreshIf(st, smt.Not(isFresh(addr, e.alloc0)), v0, t, e.alloc0)
 	return v
 }
 
@@ -150,6 +151,20 @@ func (e *Exec) checkFrame(st *State, cond *smt.Term, key string, a *smt.Term, po
 		fs := e.fstack[i]
 		if fs == nil {
 			return // barrier: unrestricted frame
+		}
+		if len(fs.deny) > 0 {
+			var ds []*smt.Term
+			for _, l := range fs.deny {
+				if l.key == key {
+					ds = append(ds, smt.Neq(l.addr, a))
+				}
+			}
+			if len(ds) > 0 {
+				saveSpec := e.spec
+				e.spec = 0
+				e.check(st, "frame", smt.Implies(cond, smt.And(ds...)), pos, "")
+				e.spec = saveSpec
+			}
 		}
 		if fs.all {
 			continue
